@@ -10,7 +10,8 @@ hail.utils.java.escape_parsable/unescape_parsable, hail.utils.misc.escape_id) ov
   (array, set, interval, ndarray(1,2), dict, tuple(0..2), struct(0..2 distinct fields)).
 
 Oracles, on every case:
-  P1  hl.dtype(str(t)) parses, equals t (hail's ==) and has the same shape/names by an independent walk;
+  P1  every printed form -- str(t), t.pretty() (several indent/increment settings), pprint.pformat(t), the argument of repr(t) --
+      parses with hl.dtype, equals t (hail's ==), has the same shape/names by an independent walk, and its loci are the registered genomes;
   P2  for the sub-language of vcf_type_grammar, parsing t._parsable_string() with it gives t back;
   P3  unescape_parsable inverts escape_parsable;
   E1  every identifier the front end emits (escape_parsable for types, escape_id for IR field names) is one
@@ -354,7 +355,55 @@ def check_name(name):
     return out, {'escaped': e != name, 'ir_escaped': e2 != name}
 
 
-def check_type(spec):
+n_forms = [0]      # printed forms parsed back (per process; harvested by _Acc)
+
+
+def printed_forms(t, s, all_printers):
+    """Every public printer of a HailType other than str / _parsable_string: [(label, text)].
+    pretty(): HailType.pretty(indent, increment) -> the _pretty overrides of ndarray/array/stream/set/dict/struct/tuple/locus/
+    interval; pprint: types.py monkey-patches pprint.PrettyPrinter so that pprint.pformat(type) is t.pretty(indent_per_level);
+    repr: "dtype('<str(t) with ' escaped as \\'>')" -- its argument, un-escaped, must be a parsable printed form (Python-evaluating
+    the repr is NOT treated as an inverse: it is not documented as one and backslash escapes inside backticks do not survive it)."""
+    import pprint
+
+    forms = [('pretty', t.pretty())]
+    r = repr(t)
+    if r.startswith("dtype('") and r.endswith("')"):
+        forms.append(('repr', r[len("dtype('"):-2].replace("\\'", "'")))
+    else:
+        forms.append(('repr', r))
+    if all_printers:
+        forms += [('pretty', t.pretty(3, 2)), ('pretty', t.pretty(0, 1)), ('pretty', t.pretty(indent=5, increment=0)),
+                  ('pprint', pprint.pformat(t)), ('pprint', pprint.pformat(t, indent=2, width=20))]
+    return forms
+
+
+def _roundtrip_text(label, text, t, spec, s, out):
+    from hail.utils.java import Env
+
+    hl = _hl()
+    shown = text if label == 'str' else f'{text!r} [{label} form of {s}]'
+    try:
+        p = hl.dtype(text)
+    except Exception as ex:  # noqa: BLE001
+        out.append((f'python-{label}-unparseable', f'hl.dtype({text!r}) raises {type(ex).__name__}: {str(ex).splitlines()[0][:160]}'
+                    + ('' if label == 'str' else f'  [{label} form of {s}]'), text))
+        return
+    ps = spec_of(p)
+    if ps != spec:
+        out.append((f'python-{label}-roundtrip-changes-type', f'hl.dtype({text!r}) is {p!r}: shape/names {ps!r} != {spec!r}', text))
+    elif not (p == t and t == p):
+        out.append((f'python-{label}-roundtrip-unequal', f'hl.dtype({shown}) has the same shape and names but compares unequal to the original', text))
+    else:
+        refs = Env.backend()._references
+        for lt in _loci(p):
+            g = lt.reference_genome
+            if refs.get(g.name) is not g:
+                out.append((f'python-{label}-denotes-unregistered-genome', f'hl.dtype({shown}) references a genome object that is not the one registered as {g.name!r}', text))
+                break
+
+
+def check_type(spec, all_printers=True):
     """-> list of (sig, msg, example_text)."""
     from vf import enginelex
 
@@ -369,18 +418,19 @@ def check_type(spec):
         e = t._parsable_string()
     except Exception as ex:  # noqa: BLE001
         return [('python-printer-raises', f'printing the type {spec!r} raises {type(ex).__name__}: {ex}', repr(spec))]
-    # P1
+    # P1: every printed form parses back to the same type
+    forms = [('str', s)]
     try:
-        p = hl.dtype(s)
+        forms += printed_forms(t, s, all_printers)
     except Exception as ex:  # noqa: BLE001
-        p = None
-        out.append(('python-str-unparseable', f'hl.dtype({s!r}) raises {type(ex).__name__}: {str(ex).splitlines()[0][:160]}', s))
-    if p is not None:
-        ps = spec_of(p)
-        if ps != spec:
-            out.append(('python-str-roundtrip-changes-type', f'hl.dtype({s!r}) is {p!r}: shape/names {ps!r} != {spec!r}', s))
-        elif not (p == t and t == p):
-            out.append(('python-str-roundtrip-unequal', f'hl.dtype({s!r}) has the same shape and names but compares unequal to the original', s))
+        out.append(('python-printer-raises', f'a printer of {s!r} raises {type(ex).__name__}: {ex}', s))
+    n_forms[0] += len(forms)
+    seen_text = set()
+    for label, text in forms:
+        if text in seen_text:
+            continue
+        seen_text.add(text)
+        _roundtrip_text(label, text, t, spec, s, out)
     # E2
     toks, err = enginelex.lex_type_string(e, engine_accepts, _punct)
     if toks is None:
@@ -602,13 +652,13 @@ class _Acc:
             if key < cur[1]:
                 cur[1], cur[2], cur[3] = key, msg, replay
 
-    def do_type(self, spec):
+    def do_type(self, spec, all_printers=True):
         self.types += 1
         d = depth(spec)
         self.by_depth[d] = self.by_depth.get(d, 0) + 1
         if d >= 2 or spec[0] == 'locus':
             self.nontrivial += 1
-        for sig, msg, text in check_type(spec):
+        for sig, msg, text in check_type(spec, all_printers):
             self.add_violation(sig, msg, text, {'kind': 'type', 'spec': spec})
         if len(self.samples) < 2 and d >= 2:
             t = build(spec)
@@ -658,12 +708,14 @@ def _item_cases(item):
 
 def _run_item(item):
     acc = _Acc()
+    n_forms[0] = 0
+    full = item[0] != 'd3'       # the big depth-3 layers use str + pretty() + repr; every other layer uses every printer
     for k, x in _item_cases(item):
         if k == 'name':
             acc.do_name(x)
         else:
-            acc.do_type(x)
-    return acc.result()
+            acc.do_type(x, full)
+    return acc.result() + (n_forms[0],)
 
 
 def _collect_item(item):
@@ -757,6 +809,7 @@ def _rebind_checks(name, rg, step, shapes_idx=None):
         t = _build_over(spec, rg)
         s = str(t)
         paths = [('hl.dtype(s)', lambda: hl.dtype(s)),
+                 ('hl.dtype(t.pretty())', lambda: hl.dtype(t.pretty())),
                  ('hl.missing(s).dtype', lambda: hl.missing(s).dtype),
                  ('hl.literal(None, dtype=s).dtype', lambda: hl.literal(None, dtype=s).dtype),
                  ('hl.tarray(s).element_type', lambda: hl.tarray(s).element_type)]
@@ -888,6 +941,7 @@ def check(tier, seed, procs):
     nontrivial = sum(r[3] for r in rows)
     escaped = sum(r[4] for r in rows)
     bare = sum(r[5] for r in rows)
+    forms_parsed = sum(r[9] for r in rows)
     by_depth = {}
     merged = {}
     samples = []
@@ -943,13 +997,16 @@ def check(tier, seed, procs):
         },
         'rebind_phase': {
             'what': 'every name of the name space as a genome name; 11 type shapes mentioning locus<NAME> (depth <= 2); 4 registry states per name: '
-                    + ' -> '.join(REBIND_WAYS) + '; after each state 4 string->type paths (hl.dtype, hl.missing(str), hl.literal(None, dtype=str), '
+                    + ' -> '.join(REBIND_WAYS) + '; after each state 5 string->type paths (hl.dtype of str and of pretty(), hl.missing(str), hl.literal(None, dtype=str), '
                     'hl.tarray(str)) must give a type over the genome OBJECT currently registered under the name (identity + contigs/lengths), and no '
                     'referenced genome may be unregistered; hail caches are never cleared by the harness',
             'name_x_state_cases': rb_cases,
             'string_to_type_resolutions_checked': rb_parses,
             'cases_per_state': dict(zip(REBIND_WAYS, rb_steps)),
         },
+        'printed_forms_round_tripped': forms_parsed,
+        'printers': 'str, pretty(), repr argument on every type; additionally pretty(3,2), pretty(0,1), pretty(5,0), pprint.pformat(t), '
+                    'pprint.pformat(t, indent=2, width=20) on every type of the name / pair / depth<=2 layers; _parsable_string() goes to the engine side',
         'types_checked': types,
         'types_by_depth': {str(k): v for k, v in sorted(by_depth.items())},
         'names_checked': names,
